@@ -437,3 +437,24 @@ ENTRIES += [
     M("C02-hopper-skip-2", "C02", "C02.4", (HOP, "            position = position[1:]", "            position = position[2:]")),
     V("C02-v-clip-order", "C02", (MC, "        v = jnp.clip(v, -self.max_speed, self.max_speed)\n        x = jnp.clip(x, self.min_position, self.max_position)", "        x = jnp.clip(x, self.min_position, self.max_position)\n        v = jnp.clip(v, -self.max_speed, self.max_speed)")),
 ]
+
+ENTRIES += [
+    # ---------------------------------------------------------------- C11
+    M("C11-time-key", "C11", ["C11.1", "C11.2"], (ONP, "        step_key, callback_key = jr.split(key, 2)\n\n        if self.num_envs == 1:\n            step_state = AbstractOnPolicyStepState.initial(", "        import time\n        step_key, callback_key = jr.split(jr.key(int(time.time())), 2)\n\n        if self.num_envs == 1:\n            step_state = AbstractOnPolicyStepState.initial(")),
+    M("C11-constant-key-step", "C11", ["C11.1", "C11.2"], (ONP, "        next_env_state = env.transition(\n            state.env_state, clipped_action, key=transition_key\n        )", "        next_env_state = env.transition(\n            state.env_state, clipped_action, key=jr.key(0)\n        )")),
+    M("C11-callback-into-env-state", "C11", "C11.3", (ONP, "            AbstractOnPolicyStepState(\n                next_env_state, next_policy_state, callback_state\n            ),", "            AbstractOnPolicyStepState(\n                jax.tree.map(lambda x: x + 0 * callback_state.step, next_env_state), next_policy_state, callback_state\n            ),"), (ONP, "import equinox as eqx\n", "import equinox as eqx\nimport jax\n")),
+    M("C11-callback-gates-reward", "C11", "C11.3", (OFP, "        replay_buffer = state.buffer.add(\n            observation,\n            next_observation,\n            action,\n            reward,", "        replay_buffer = state.buffer.add(\n            observation,\n            next_observation,\n            action,\n            reward + 0.0 * callback.on_step(StepContext(state.callback_state, env, policy, done, reward, locals()), key=callback_key).step,")),
+    M("C11-split-depends-on-callback", "C11", "C11.3", (BA, "        callback_start_key, reset_key, learn_key, callback_end_key = jr.split(key, 4)\n\n        callback = self.consolidate_callbacks(callback)", "        callback = self.consolidate_callbacks(callback)\n        callback_start_key, reset_key, learn_key, callback_end_key = jr.split(key, 4 + len(callback.callbacks))[:4]\n")),
+    M("C11-policy-dict-mutation", "C11", "C11.4", (BA, "        callback = self.consolidate_callbacks(callback)\n        state = self.reset(", "        callback = self.consolidate_callbacks(callback)\n        policy.__dict__[\"trained\"] = True\n        state = self.reset(")),
+    M("C11-policy-setattr", "C11", ["C11.4", "C11.1"], (DQN, "        batch = buffer.sample(self.batch_size, key=key)\n\n        loss, grads = self.dqn_loss_grad(", "        object.__setattr__(target_policy, \"epsilon\", 0.0)\n        batch = buffer.sample(self.batch_size, key=key)\n\n        loss, grads = self.dqn_loss_grad(")),
+    M("C11-numpy-random-buffer", "C11", "C11.1", (RPB, "        batch_indices = jr.choice(\n            key,\n            total,", "        import numpy as np\n        batch_indices = jr.choice(\n            jr.key(np.random.randint(0, 2**31)),\n            total,")),
+    M("C11-learn-returns-input", "C11", ["C11.4", "C11.3"], (BA, "        return state.policy\n", "        return policy\n")),
+    M("C11-iteration-callback-policy", "C11", "C11.3", (ONP, "        state = state.next(step_state, policy, opt_state)\n\n        state = state.with_callback_states(\n            callback.on_iteration(", "        state = state.next(step_state, policy, opt_state)\n        state = eqx.tree_at(lambda s: s.iteration_count, state, state.iteration_count + 0 * callback.continue_training(None, key=callback_key))\n\n        state = state.with_callback_states(\n            callback.on_iteration(")),
+    # ---------------------------------------------------------------- C12
+    M("C12-dynamic-branch", ["C12"], "C12.1", (MC, "        x, v = y\n        v = jnp.clip(v, -self.max_speed, self.max_speed)", "        x, v = y\n        if v > self.max_speed:\n            v = self.max_speed\n        v = jnp.clip(v, -self.max_speed, self.max_speed)")),
+    M("C12-state-broadcast", "C12", "C12.2", (ONP, "                self.collect_rollout, in_axes=(None, None, eqx.if_array(0), None, 0)", "                self.collect_rollout, in_axes=(None, None, None, None, 0)")),
+    M("C12-one-key-for-all", "C12", "C12.2", (OFP, "                self.collect_rollout, in_axes=(None, None, eqx.if_array(0), None, 0)\n            )(\n                state.env,\n                state.policy,\n                state.step_state,\n                callback,\n                jr.split(rollout_key, self.num_envs),", "                self.collect_rollout, in_axes=(None, None, eqx.if_array(0), None, None)\n            )(\n                state.env,\n                state.policy,\n                state.step_state,\n                callback,\n                rollout_key,")),
+    M("C12-keys-wrong-count", "C12", "C12.2", (DQN, "                jr.split(rollout_key, self.num_envs),", "                jr.split(rollout_key, self.num_steps),")),
+    M("C12-pmean-advantages", "C12", "C12.3", (RB, "        returns = advantages + self.values\n", "        advantages = advantages - lax.pmean(advantages, axis_name=\"env\")\n        returns = advantages + self.values\n")),
+    M("C12-warmup-state-broadcast", "C12", "C12.2", (OFP, "                self.collect_learning_starts, in_axes=(None, None, 0, None, 0)", "                self.collect_learning_starts, in_axes=(None, None, None, None, 0)")),
+]
